@@ -73,3 +73,153 @@ func (c *Ctx) AtomicDiscipline(key string, pkgRels ...string) int {
 	}
 	return n
 }
+
+// atomicOp classifies a call as an atomic operation on a struct field, in either
+// form (atomic.AddInt64(&x.f, …) or x.f.Add(…) on a sync/atomic / uber atomic
+// typed field). It returns the field, the operation class (Load, Store, Add,
+// Swap, CompareAndSwap, …) and the operands after the address.
+func atomicOp(info *types.Info, call *ast.CallExpr) (*types.Var, string, []ast.Expr) {
+	fv, op, args, _ := atomicOpOn(info, call)
+	return fv, op, args
+}
+
+// atomicOpOn additionally returns the expression denoting the field (x.f).
+func atomicOpOn(info *types.Info, call *ast.CallExpr) (*types.Var, string, []ast.Expr, ast.Expr) {
+	cal := callee(info, call)
+	if cal == nil || cal.Pkg() == nil {
+		return nil, "", nil, nil
+	}
+	pp := cal.Pkg().Path()
+	if pp != "sync/atomic" && pp != "go.uber.org/atomic" {
+		return nil, "", nil, nil
+	}
+	class := func(name string) string {
+		for _, p := range []string{"CompareAndSwap", "CompareAndSwap", "Load", "Store", "Swap", "Add", "Sub", "Inc", "Dec", "And", "Or", "Toggle", "CAS"} {
+			if strings.HasPrefix(name, p) {
+				return p
+			}
+		}
+		return name
+	}
+	if cal.Type().(*types.Signature).Recv() == nil {
+		if len(call.Args) == 0 {
+			return nil, "", nil, nil
+		}
+		ue, ok := ast.Unparen(call.Args[0]).(*ast.UnaryExpr)
+		if !ok {
+			return nil, "", nil, nil
+		}
+		fv := selField(info, ue.X)
+		if fv == nil {
+			return nil, "", nil, nil
+		}
+		return fv, class(cal.Name()), call.Args[1:], ue.X
+	}
+	sel, ok := ast.Unparen(call.Fun).(*ast.SelectorExpr)
+	if !ok {
+		return nil, "", nil, nil
+	}
+	fv := selField(info, sel.X)
+	if fv == nil {
+		return nil, "", nil, nil
+	}
+	return fv, class(cal.Name()), call.Args, sel.X
+}
+
+// NoLostUpdate: a field that some party updates with an atomic read-modify-write
+// (Add, Swap, CompareAndSwap, …) is never written with a Store whose value was
+// derived from a Load of the same field: an update landing between that load and
+// the store would be overwritten (each access is atomic, the pair is not).
+func (c *Ctx) NoLostUpdate(key string, pkgRels ...string) int {
+	inPkg := func(p string) bool {
+		for _, r := range pkgRels {
+			if relPkg(p) == r {
+				return true
+			}
+		}
+		return len(pkgRels) == 0
+	}
+	type storeSite struct {
+		call  *ast.CallExpr
+		on    string
+		val   ast.Expr
+		info  *types.Info
+		decl  *ast.FuncDecl
+		where string
+		encl  string
+	}
+	rmw := map[*types.Var]string{}
+	stores := map[*types.Var][]storeSite{}
+	for _, pk := range c.P.Pkgs {
+		if !inPkg(pk.PkgPath) {
+			continue
+		}
+		info := pk.TypesInfo
+		for _, file := range pk.Syntax {
+			for _, d := range file.Decls {
+				fd, ok := d.(*ast.FuncDecl)
+				if !ok || fd.Body == nil {
+					continue
+				}
+				encl := fd.Name.Name
+				if obj, ok := info.Defs[fd.Name].(*types.Func); ok {
+					encl = funcName(obj)
+				}
+				ast.Inspect(fd.Body, func(n ast.Node) bool {
+					call, ok := n.(*ast.CallExpr)
+					if !ok {
+						return true
+					}
+					fv, op, args, on := atomicOpOn(info, call)
+					if fv == nil {
+						return true
+					}
+					switch op {
+					case "Load":
+					case "Store":
+						if len(args) == 1 {
+							stores[fv] = append(stores[fv], storeSite{call, types.ExprString(on), args[0], info, fd, c.P.Pos(call.Pos()), encl})
+						}
+					default:
+						rmw[fv] = c.P.Pos(call.Pos())
+					}
+					return true
+				})
+			}
+		}
+	}
+	n := 0
+	for fv, sites := range stores {
+		at, shared := rmw[fv]
+		if !shared {
+			continue
+		}
+		for _, s := range sites {
+			n++
+			derived := false
+			var walk func(e ast.Expr, depth int)
+			walk = func(e ast.Expr, depth int) {
+				if e == nil || depth > 6 || derived {
+					return
+				}
+				ast.Inspect(e, func(m ast.Node) bool {
+					switch x := m.(type) {
+					case *ast.CallExpr:
+						if f2, op, _, on := atomicOpOn(s.info, x); f2 == fv && op == "Load" && types.ExprString(on) == s.on {
+							derived = true
+						}
+					case *ast.Ident:
+						if def := singleLocalDef(s.info, s.decl, s.info.ObjectOf(x)); def != nil {
+							walk(def, depth+1)
+						}
+					}
+					return !derived
+				})
+			}
+			walk(s.val, 0)
+			k := key + "/" + fieldOwner(fv) + "." + fv.Name() + "@" + s.encl
+			c.Check(!derived, k, "a counter that is also updated by atomic read-modify-write is never overwritten with a value computed from an earlier load of it", s.where, "Store of a value derived from Load of "+fv.Name()+", which is updated with a read-modify-write at "+at+": a concurrent update between the load and the store is lost")
+		}
+	}
+	return n
+}
